@@ -59,6 +59,9 @@ func (f *HTTPHandler) rewriteFunc(r *httputil.ProxyRequest) {
 
 	for _, hj := range f.HeaderInjectors {
 		k := hj.GetHeaderName()
+		// never forward a client-supplied value under an injected header name,
+		// also when no fingerprint can be computed for this request
+		r.Out.Header.Del(k)
 		if v, err := hj.GetHeaderValue(r.In); err != nil {
 			f.logf("get header %s value for %s failed: %s", k, r.In.RemoteAddr, err)
 		} else if v != "" { // skip empty header values
